@@ -21,6 +21,7 @@ harness's `norm` should apply to decoder output before comparing).
 
 opts (dict, every key optional)
     'ext_len'        set of attribute codes whose length is forced to the 2-octet encoding
+    'partial'        set of attribute codes sent with the Partial bit (applied to optional transitive ones only)
     'order'          list of attribute codes giving the wire order (others follow, ascending)
     'trailing_bits'  True | 'v4' | 'v6' | 'ipv4-unicast': fill the unused low bits of the last octet of
                      every IPv4 / IPv6 prefix with ones (RFC 4271 4.3: their value is irrelevant).
@@ -1077,7 +1078,10 @@ def wrap_attr(flags, code, value, ext_len=False):
 def encode_attr(code, value, asn4, ext_len=False, *, add_path=False, opts=None):
     """One complete path attribute.  Flags by RFC category (ATTR_FLAGS)."""
     v = attr_value(code, value, asn4, add_path, opts)
-    return wrap_attr(ATTR_FLAGS[code], code, v, ext_len)
+    flags = ATTR_FLAGS[code]
+    if code in (_opt(opts, 'partial') or ()) and flags & 0xC0 == 0xC0:
+        flags |= 0x20          # Partial: legal on optional transitive attributes only (RFC 4271 4.3), meaningless to the value
+    return wrap_attr(flags, code, v, ext_len)
 
 
 def _attr_order(attr, opts):
